@@ -124,6 +124,13 @@ CLAIMED["C12"] = dict(
     design_ref="§5 C12, §4.3",
 )
 
+CLAIMED["C16"] = dict(
+    category="exploration",
+    technique="bounded-exhaustive enumeration of functionals x all eight grid types x sizes x lengths x Lanczos settings x bulk states with a uniform profile; oracle = bulk model",
+    text="A uniform density profile with zero external potential is built on every grid type and size of the lattice for every functional family and compared with the bulk model: weighted densities against the k = 0 weight constants, the Euler-Lagrange residual, the grand potential density against -p pointwise, the mole numbers against rho times the integral of one, volume() against the integral of one with the grid's own weights, and the excess grand potential against zero.",
+    design_ref="§5 C16",
+)
+
 NOT_YET = "check not built yet (work in progress; see DESIGN.md §9 build order) - not a claim that the technique cannot apply"
 
 ALL = ["C%02d" % i for i in range(1, 21)]
